@@ -9,7 +9,8 @@
    re-inserting a cut slice, the error class of refused replaces) is evaluated per case by Corr.C02. *)
 From Coq Require Import List Arith Lia.
 From PM Require Import Model.Data Model.Mark Model.Tree Spec.Tokens
-  Proofs.ReplaceValid Proofs.SliceSides Proofs.TokenBasics Proofs.PathTokens Proofs.ReplaceTokens Proofs.SliceShape.
+  Proofs.ReplaceValid Proofs.SliceSides Proofs.TokenBasics Proofs.PathTokens Proofs.ReplaceTokens Proofs.SliceShape
+  Proofs.SliceTokens Proofs.SliceCut.
 Import ListNotations.
 
 Theorem C02_replace_is_token_splice : forall s doc from to sl d',
@@ -58,3 +59,13 @@ Theorem C02_replace_returns_valid : forall s doc from to sl d',
   node_replace s doc from to sl = Ok d' -> check s d' = true.
 Proof. exact node_replace_valid_open. Qed.
 Print Assumptions C02_replace_returns_valid.
+
+(* cutting: Node.slice(from, to) stands for exactly the tokens of the range, and its open sides have the
+   depths it claims (the first open_start first-children and the last open_end last-children are opened
+   non-leaf nodes) — for every document (valid or not), every from <= to *)
+Theorem C02_slice_is_token_range : forall s doc from to sl,
+  from <= to -> node_slice s doc from to = Ok sl ->
+  Shape s (sl_content sl) (sl_open_start sl) (sl_open_end sl) /\
+  inner_toks s sl = seg (ftoks s (node_content doc)) from to.
+Proof. exact node_slice_toks. Qed.
+Print Assumptions C02_slice_is_token_range.
